@@ -148,6 +148,14 @@ class DepDomain(Domain):
     def on_event(self, node, state):
         if isinstance(node, ast.Call):
             self.probe(node, state)
+            # container mutators make the receiver depend on what is put into it
+            if isinstance(node.func, ast.Attribute) and node.func.attr in CONTAINER_MUTATORS and isinstance(node.func.value, ast.Name):
+                name = node.func.value.id
+                cur = self.env_get(state, name)
+                add = frozenset()
+                for a in node.args:
+                    add |= self.deps(a, state)
+                state = self.env_set(state, name, (cur if cur is not None else frozenset()) | add)
         yield state, NORMAL
         for k in self.raises(node, state):
             yield state, RAISE(k)
@@ -181,6 +189,7 @@ class DepDomain(Domain):
         return self.add_tag(state, t) if t is not None else state
 
 
+CONTAINER_MUTATORS = {"append", "appendleft", "extend", "extendleft", "add", "update", "insert"}
 PURE = {"abs", "float", "int", "max", "min", "len", "list", "tuple", "deque", "dict", "set", "bool",
         "str", "bytes", "bytearray", "sorted", "reversed", "enumerate", "zip", "range", "isinstance",
         "hasattr", "getattr", "format", "join", "round", "sum", "frozenset"}
